@@ -229,6 +229,7 @@ def plan(tier, seed):
 
     if tier == 'quick':
         add('fn', [1, 2, 3], FN_FLAGSETS, 2, 2)
+        add('fn-nested', [4], ['E'], 2, 2)
         add('glob', [1, 2], GL_FLAGSETS, 1, 2)
         add('glob', [3], GL_FLAGSETS[:8], 1, 2)
     else:
@@ -259,7 +260,14 @@ def run_chunk(chunk):
     inner, top = menus()
     lv = top if mode_name == 'glob' else inner
     k = 0
-    for seq in pat.gen(budget, lv, ext=True, depth=depth, max_alts=max_alts, inner=inner):
+    kinds = '?*+@!'
+    if mode_name == 'fn-nested':
+        # groups inside groups at the start of a name: only shapes that contain a nested group, two group kinds
+        mode_name, kinds, lv = 'fn', '@*', pat.leaves('a.', ['[!a]'])
+    nested_only = chunk[1] == 'fn-nested'
+    for seq in pat.gen(budget, lv, ext=True, depth=depth, max_alts=max_alts, inner=inner if not nested_only else None, kinds=kinds):
+        if nested_only and not any(nd[0] == 'ext' and any(pat.has_ext(a) for a in nd[2]) for nd in seq):
+            continue
         k += 1
         if k % ns != sh:
             continue
